@@ -160,11 +160,16 @@ impl<'a> Env<'a> {
   }
   /// runs `moc args... <fmt> <out>`; a crash (signal, exit 101 or a panic message) is a violation
   fn run(&mut self, args: &[String], case: &str) -> Option<i32> {
+    self.run_c(args, case, &|_| String::new())
+  }
+  /// `crash_class` maps the standard error of a crash to a classification (known-findings matching)
+  fn run_c(&mut self, args: &[String], case: &str, crash_class: &dyn Fn(&str) -> String) -> Option<i32> {
     let a: Vec<&str> = args.iter().map(|s| s.as_str()).collect();
     let r = run_cmd(&self.moc, &a, None);
     self.rep.evaluations += 1;
     if r.code.is_none() || r.code == Some(101) || r.stderr.contains("panicked") {
-      self.rep.violation(&format!("the moc tool crashes (exit {:?})", r.code), case, &r.stderr.chars().take(300).collect::<String>(), "exit status + message", "C19 (never a crash)");
+      let cls = crash_class(&r.stderr);
+      self.rep.violation_c(&format!("the moc tool crashes (exit {:?})", r.code), case, &r.stderr.chars().take(300).collect::<String>(), "exit status + message", "C19 (never a crash)", &cls);
       return None;
     }
     r.code
@@ -321,7 +326,19 @@ fn st_cases(e: &mut Env, rng: &mut Rng, n: u64) {
         let args: Vec<String> = vec!["op".into(), name.into(), pa.to_str().unwrap().into(), pb.to_str().unwrap().into(), fmt.into(), out.to_str().unwrap().into()];
         let case = format!("STOP {} A: {} | B: {} # moc op {} ... {}", o, a.show(), b.show(), name, fmt);
         e.rep.count(&format!("st:{}", name));
-        let code = match e.run(&args, &case) {
+        // D10e (known finding): an element of a union keeps the time depth of the operand it comes
+        // from although it was cut at the deeper bounds of the other one; the text writers index
+        // their per-depth buckets out of bounds or round the range to that depth
+        let d10e = o == "or" && a.dt != b.dt && fmt != "fits";
+        let fmt_s = fmt.to_string();
+        let code = match e.run_c(&args, &case, &move |stderr: &str| {
+          let file = if fmt_s == "ascii" { "src/deser/ascii.rs" } else { "src/deser/json.rs" };
+          if d10e && stderr.contains("index out of bounds") && stderr.contains(file) {
+            format!("st-union-elem-depth|crash|{}", fmt_s)
+          } else {
+            String::new()
+          }
+        }) {
           Some(c) => c,
           None => continue,
         };
@@ -333,7 +350,25 @@ fn st_cases(e: &mut Env, rng: &mut Rng, n: u64) {
             let t: Vec<&str> = ans.split_whitespace().collect();
             let depths_ok = res.elems.is_empty() || (res.dt == a.dt.max(b.dt) && res.ds == a.ds.max(b.ds));
             if t.len() < 3 || t[0] != "OK" || t[2] != "1" || !depths_ok {
-              e.rep.violation("the decoded output of `moc op` on space-time MOCs does not cover the set-theoretic result", &case, &format!("{} -> {}", res.show(), ans), "point set = op(A, B)", "C19 + C08_pointset_checker_exact");
+              // is it the text rendering only (D10e)?  the same operation written in FITS is then right
+              let mut cls = String::new();
+              if d10e {
+                let out2 = e.p("st_result_out_fits");
+                let _ = std::fs::remove_file(&out2);
+                let args2: Vec<String> = vec!["op".into(), name.into(), pa.to_str().unwrap().into(), pb.to_str().unwrap().into(), "fits".into(), out2.to_str().unwrap().into()];
+                let a2: Vec<&str> = args2.iter().map(|s| s.as_str()).collect();
+                let r2 = run_cmd(&e.moc, &a2, None);
+                if r2.code == Some(0) {
+                  if let Ok(res2) = decode_st("fits", &out2) {
+                    let ans2 = e.orc.ask(&format!("ST2R {} {} {} {} {} {}", o, res2.dt, res2.ds, res2.wire(), a.wire(), b.wire()));
+                    let t2: Vec<&str> = ans2.split_whitespace().collect();
+                    if t2.len() >= 3 && t2[0] == "OK" && t2[2] == "1" {
+                      cls = "st-union-elem-depth|text".to_string();
+                    }
+                  }
+                }
+              }
+              e.rep.violation_c("the decoded output of `moc op` on space-time MOCs does not cover the set-theoretic result", &case, &format!("{} -> {}", res.show(), ans), "point set = op(A, B)", "C19 + C08_pointset_checker_exact", &cls);
             } else if !a.elems.is_empty() && !b.elems.is_empty() {
               e.rep.nontrivial(&case);
             }
